@@ -135,7 +135,7 @@ func c12Worker(args []string) int {
 		}
 		y := s.YAML()
 		isSigned := func(f string) bool { return clocked || signed && (f == "deb" || f == "rpm" || f == "apk") }
-		// sequential baseline; for three configs out of four it is taken AFTER the concurrent
+		// sequential baseline; for seven configs out of eight (all of the quick tier) it is taken AFTER the concurrent
 		// scenarios, so that those are the first packagings of their kind in the
 		// process (nothing is warmed up by a sequential run)
 		baseline := func() bool {
@@ -159,7 +159,7 @@ func c12Worker(args []string) int {
 			}
 			return true
 		}
-		if ci%4 == 2 && !baseline() {
+		if ci%8 == 6 && !baseline() {
 			return 2
 		}
 		r := rng.New(seed).Fork(uint64(9000 + ci))
@@ -283,7 +283,7 @@ func c12Worker(args []string) int {
 			}
 			scenD()
 		}
-		if ci%4 != 2 && !baseline() {
+		if ci%8 != 6 && !baseline() {
 			return 2
 		}
 		removeWorkDir(root)
